@@ -72,11 +72,6 @@ pub proof fn lemma_no_key_sub(prefix: Seq<MatchResult>, k: (int, Seq<char>))
         lemma_no_key_sub(prefix.drop_last(), k);
     }
 }
-/// `p` witnesses that `b` is a rearrangement of `a`
-pub open spec fn is_perm_of<T>(a: Seq<T>, b: Seq<T>, p: Seq<int>) -> bool {
-    &&& p.len() == a.len() && b.len() == a.len() && p.no_duplicates()
-    &&& forall|i: int| 0 <= i < b.len() ==> 0 <= #[trigger] p[i] < a.len() && b[i] == a[p[i]]
-}
 
 /// the legs whose disposal date lies in tax year y, in matcher order (C07.slice)
 pub open spec fn legs_in_year(s: Seq<MatchResult>, y: int) -> Seq<MatchResult>
